@@ -23,15 +23,15 @@ RULE = ("meshes over all topology families of C01 (grids, closed surfaces, non-m
         "properties, trailing bytes). draco_encoder/draco_decoder run on temporary files with quantization disabled. "
         "non-trivial = distinct op line")
 THEOREM_BACKED = ("stl_roundtrip (full), ply_roundtrip (full on float32/int32 positions, float32 normals, uint8 colours), "
-                  "obj_roundtrip / obj_connectivity_roundtrip / obj_seams_exact / obj_precision (meshes with >= 1 face, "
-                  "relative to the number codec)")
+                  "obj_roundtrip / obj_connectivity_roundtrip / obj_seams_exact / obj_precision (meshes with >= 1 face) and "
+                  "obj_pointcloud_roundtrip (point clouds, face-less meshes), all relative to the number codec")
 CORRESPONDENCE_ONLY = ("the 6-decimal bound of the C++ text codec (snprintf %F / parser::ParseFloat: double arithmetic) is "
                        "checked in exact rationals per value, not proved; the command line tools are exercised end to end "
                        "only (no model of the tools)")
-EXPLANATION = ("OBJ point clouds / face-less meshes whose attributes are not identity-mapped full tables are written as "
-               "value tables and come back with attributes attached to the wrong points or unreadable "
-               "(obj_pointcloud_pairing_violation, obj_pointcloud_unreadable): reported under the signature "
-               "obj-pointcloud-value-tables")
+EXPLANATION = ("OBJ point clouds / face-less meshes: ObjEncoder used to write value tables that ObjDecoder pairs by position "
+               "(repaired in /repo 55a4a4d; obj_pointcloud_pairing_violation / obj_pointcloud_unreadable are kept as "
+               "statements about the old writer, their inputs are the first cases of every run); the current writer is "
+               "covered by obj_pointcloud_roundtrip")
 ASSUMPTIONS = ["IEEE-754 binary32/binary64 round-to-nearest arithmetic in g++ (x86-64 SSE, no FMA contraction) and in the "
                "compiled Lean driver (STL face normals, ParseFloat)",
                "glibc printf(\"%F\") rounds the exact binary value half-to-even (as the model and the oracle do)"]
@@ -39,7 +39,6 @@ TRUSTED_EXTRA = ["python oracle of tools/props/C15.py (exact rational 6-decimal 
 TIMEOUT = 1800
 
 F32, U8, I32 = G.DT["f32"], G.DT["u8"], G.DT["i32"]
-KNOWN_POINTCLOUD = "obj-pointcloud-value-tables"
 
 
 # ------------------------------------------------------------------ float helpers
@@ -463,18 +462,13 @@ def obj_mesh_oracle(g, am):
     return f
 
 
-def obj_identity_tables(g):
-    return all(a is None or (a.num_values == g.num_points and (a.map is None or a.map == list(range(g.num_points))))
-               for a in obj_atts(g))
-
-
 def obj_points_oracle(g, am):
     """point clouds and meshes without faces: the same list of points up to merging of identical points"""
     def f(hout, case):
         if not obj_hyp(g) or (g.is_mesh and g.faces) or am != g.is_mesh or g.num_points == 0:
             return None
         op = case.op[:300]
-        sig = "obj-pointcloud" if obj_identity_tables(g) else KNOWN_POINTCLOUD
+        sig = "obj-pointcloud"
         parts = hout.split(" | ")
         if len(parts) != 2 or parts[0] == "ERR":
             return ("obj-encode-fails", f"ObjEncoder failed on a point cloud with float32 attributes: `{op}`")
@@ -644,6 +638,19 @@ def case_from_line(line, flavour="plain", tags=()):
         am = tok[1] == "1"
         o1, o2 = obj_mesh_oracle(g, am), obj_points_oracle(g, am)
         c = Case(line, expect=expect_rt, oracle=lambda h, cs: o1(h, cs) or o2(h, cs), flavour=flavour, tags=tags)
+    elif op in ("obj_rth", "ply_rth"):
+        # history on ONE encoder object: geometry A first, then geometry B; the result for B is held to the same
+        # standard as a fresh encoder's (model line and oracles = the plain op on B)
+        sep = tok.index("--")
+        btok = [op[:-1], tok[1]] + tok[sep + 1:]
+        g, _ = G.parse_geom(btok, 2)
+        am = tok[1] == "1"
+        if op == "obj_rth":
+            o1, o2 = obj_mesh_oracle(g, am), obj_points_oracle(g, am)
+            orc = lambda h, cs: o1(h, cs) or o2(h, cs)
+        else:
+            orc = ply_oracle(g, am)
+        c = Case(line, model=" ".join(btok), expect=expect_rt, oracle=orc, flavour=flavour, tags=tags)
     elif op in ("stl_dec", "ply_dec", "obj_dec"):
         c = Case(line, expect=expect_dec, flavour=flavour, tags=tags)
     elif op == "obj_nums":
@@ -830,6 +837,14 @@ def generate(rng, tier):
         if rng.random() < 0.1:      # a mesh file read as a point cloud and vice versa (correspondence only)
             cases.append(case_from_line(f"ply_rt {1 - am} " + t, fl, ("ply", "cross_read")))
             cases.append(case_from_line(f"obj_rt {1 - am} " + t, fl, ("obj", "cross_read")))
+    # ---- 1b. histories: one encoder object writes another geometry first (mesh then cloud, cloud then mesh, …)
+    for i in range(600 if thorough else 120):
+        ga = refill(rng, rand_geom(rng, tier), boundary_byte=False)
+        gb = refill(rng, rand_geom(rng, tier), boundary_byte=False)
+        am = 1 if gb.is_mesh else 0
+        op = "obj_rth" if i % 2 == 0 else "ply_rth"
+        cases.append(case_from_line(f"{op} {am} {ga.to_text()} -- {gb.to_text()}", "asan" if i % 4 == 0 else "plain",
+                                    (op, "history:" + ("mesh" if ga.is_mesh else "pc") + "->" + ("mesh" if gb.is_mesh else "pc"))))
     # ---- 2. geometries outside the property's domain (other types / several attributes of a kind / no position):
     #         correspondence, and the oracles wherever the theorems' hypotheses hold
     for i in range(1500 if thorough else 300):
